@@ -142,10 +142,9 @@ def killed_script_case(sig):
         log = pr.log()
         if r.timed_out:
             return {"property": "C07", "expected": "the run ends when gen's shell is killed by SIG%s" % sig, "observed": "no exit in 30 s", "zinoma": r.brief()}
-        if r.rc == 0:
-            return {"property": ["C07", "C05"], "expected": "gen's shell was killed by SIG%s: the build failed, zinoma exits non-zero" % sig, "observed": "exit 0; log %s" % log, "zinoma": r.brief()}
-        if "s lib" in log or "s app" in log:
-            return {"property": ["C07", "C01"], "expected": "lib and app depend on gen, whose script was killed by SIG%s: they never start" % sig, "observed": "log %s" % log, "zinoma": r.brief()}
+        started_dependents = "s lib" in log or "s app" in log
+        if r.rc == 0 or started_dependents:
+            return {"property": ["C07", "C05"] + (["C01"] if started_dependents else []), "expected": "gen's shell was killed by SIG%s: the build failed - zinoma exits non-zero and lib, app (which depend on gen) never start" % sig, "observed": "exit %s; log %s" % (r.rc, log), "zinoma": r.brief()}
         pr.clear_log()
         pr.run("all", timeout=30)
         if "s gen" not in pr.log():
